@@ -251,11 +251,13 @@ def check_bins(prog, rep):
         rep.violate(R, construct, "linspace without its endpoint: the last markers lie beyond the highest boundary", where(f, hb[0]))
         good = False
     # inner loop
-    if not (isinstance(inner.iter, ast.Call) and dump(inner.iter.func) == "range" and len(inner.iter.args) == 1 and _strip(dump(inner.iter.args[0])) == nh
-            and isinstance(inner.target, ast.Name)):
+    if not (isinstance(inner.iter, ast.Call) and dump(inner.iter.func) == "range" and isinstance(inner.target, ast.Name)):
+        rep.unrec(R, construct, "block loop %s is not a counting loop over the chromosome's blocks" % dump(inner.iter)[:40])
+        return
+    if not (len(inner.iter.args) == 1 and _strip(dump(inner.iter.args[0])) == nh):
         rep.violate(R, construct, "block loop is %s, not range(%s)" % (dump(inner.iter)[:40], nh), where(f, inner))
         good = False
-        j = inner.target.id if isinstance(inner.target, ast.Name) else "j"
+        j = inner.target.id
     else:
         j = inner.target.id
     # masks: resolve names inside the inner loop
